@@ -57,6 +57,7 @@ func CaseFromLine(line string) *Case {
 		c.Hdr = int(atoi(v))
 	}
 	c.RawS = m["s"]
+	c.Elems = ElemsOfRaw(c.RawS)
 	if o, ok := m["order"]; ok && o != "*" {
 		c.Order = []int{}
 		if o != "-" {
@@ -75,6 +76,52 @@ func CaseFromLine(line string) *Case {
 	}
 	c.Tags = append(c.Tags, "corpus")
 	return c
+}
+
+// ElemsOfRaw parses the s= token of a corpus / replay line back into elements (kind, timestamp,
+// NAL units / payload): enough for the harness-side oracles that look at what the sender sent
+func ElemsOfRaw(raw string) []Elem {
+	var out []Elem
+	if raw == "" || raw == "-" {
+		return out
+	}
+	for _, t := range strings.Split(raw, ",") {
+		f := strings.Split(t, ".")
+		if len(f) < 2 || len(f[0]) != 1 {
+			continue
+		}
+		e := Elem{Kind: f[0][0]}
+		nals := func(x string) [][]byte {
+			var l [][]byte
+			for _, h := range strings.Split(x, "+") {
+				l = append(l, Unhx(h))
+			}
+			return l
+		}
+		switch e.Kind {
+		case 'S', 'A', 'U', 'F':
+			if len(f) >= 4 {
+				e.TS = uint32(atoi(f[1]))
+				e.M = f[2] == "1"
+				e.Nals = nals(f[3])
+			}
+			if e.Kind == 'F' && len(f) >= 5 && f[4] != "-" {
+				for _, c := range strings.Split(f[4], "+") {
+					e.Cuts = append(e.Cuts, int(atoi(c)))
+				}
+			}
+		case 'R', 'Q':
+			if len(f) >= 4 {
+				e.TS = uint32(atoi(f[1]))
+				e.M = f[2] == "1"
+				e.Data = Unhx(f[3])
+			}
+		case 'C', 'X':
+			e.Data = Unhx(f[1])
+		}
+		out = append(out, e)
+	}
+	return out
 }
 
 // HasTag reports whether the case carries the tag
